@@ -125,10 +125,17 @@ def run(tier):
             bad = None
             for N in (4, 16):
                 for p in ([1, 3, 5, -1, 2 * N - 1, N + 1] if kind == 'auto' else [0, 1, 5, -3, N, 2 * N - 1]):
-                    for alias in (None, ('res', 'a')):
+                    for alias in (None, ('res', 'a'), 'compact'):
                         sh = {'N': N, 'p': p, 'res_size': 3, 'a_size': 2}
                         if not name.startswith('vec_znx_big'):
                             sh.update(res_sl=N + 1, a_sl=N + 1)
+                        if alias == 'compact':
+                            # same base pointer, different strides: compaction of a stride-2N vector into stride N, limb by limb
+                            # (limb 0 is in place, later limbs are not: the per-limb pointer test must decide)
+                            if name.startswith('vec_znx_big'):
+                                continue
+                            sh.update(res_sl=N, a_sl=2 * N, res_size=3, a_size=3)
+                            alias = ('res', 'a')
                         try:
                             r = ab.instantiate(name, sh, 'accel', mtype, alias=alias, expand='values')
                         except (Unsupported, NeedEnum) as e:
